@@ -61,6 +61,64 @@ def replay_one(ctx, inst):
                 "samp": inst["samp"], "edges": inst["edges"], "emuts": inst["emuts"], "espan": inst["espan"]}, limit=4)
 
 
+def blocks_consts(NS, NI, L, max_muts, num_ind, tree_filter, emit=False):
+    import json
+    return {"NS": NS, "NI": NI, "L": L, "MaxMuts": max_muts, "TreeFilter": json.dumps(tree_filter),
+            "NumInd": num_ind, "EmitDone": "TRUE" if emit else "FALSE"}
+
+
+def replay_blocks(ctx, inst):
+    """Blocks.tla behaviour -> real phasing.block_singletons on the same tree sequence."""
+    from tsdate import phasing
+    ts = sc.ts_of(inst)
+    if build_edge_rows(ts) != [list(e) for e in inst["edges"]]:
+        raise harness.MachineryError("TreeSeq module does not match tskit (edge order) in Blocks replay")
+    unph = np.zeros(ts.num_individuals, dtype=bool)
+    unph[list(inst["unph"])] = True
+    mids = sc.mutation_ids(inst, ts)
+    phantom = inst["nblocks"] != len(inst["rows"])
+    decl = sorted((sorted(r["edges"]), r["span"], r["sing"]) for r in inst["decl"])
+    model = sorted((sorted([r["e1"], r["e2"]]), r["span"], r["sing"]) for r in inst["rows"])
+    cls = "one-node-isolated" if phantom else ("singleton-outside-any-block" if model != decl else "regular")
+    ctx.evaluations += 1
+    try:
+        stats, bedges, mblock = phasing.block_singletons(ts, unph)
+    except AssertionError as ex:
+        ctx.violation(f"C24/block_singletons/AssertionError/{cls}", inst,
+                      f"block_singletons raised AssertionError {ex} (model: {inst['nblocks']} ids handed out, "
+                      f"{len(inst['rows'])} blocks flushed)", subcheck="blocks")
+        return
+    except Exception as ex:  # noqa: BLE001
+        ctx.violation(f"C24/block_singletons/{type(ex).__name__}/{cls}", inst, f"{type(ex).__name__}: {ex}", subcheck="blocks")
+        return
+    got = sorted((sorted((int(bedges[k, 0]) + 1, int(bedges[k, 1]) + 1)), int(stats[k, 1]), int(stats[k, 0]))
+                 for k in range(stats.shape[0]))
+    if got != decl:
+        ctx.violation(f"C24/block_singletons/tally-mismatch/{cls}", inst,
+                      f"code blocks (edges, span, singletons) {got}; declarative {decl}; as-implemented model {model}",
+                      subcheck="blocks")
+    else:
+        # every mutation on a tracked node inside a block points at that block's row
+        for dd, m in enumerate(mids):
+            b = int(mblock[m])
+            x, u = inst["muts"][dd]
+            if b >= 0:
+                e1, e2 = int(bedges[b, 0]), int(bedges[b, 1])
+                on = [e for e in (e1, e2) if ts.edges_child[e] == u and ts.edges_left[e] <= x < ts.edges_right[e]]
+                if not on:
+                    ctx.violation(f"C24/block_singletons/mutation-block/{cls}", inst,
+                                  f"mutation {inst['muts'][dd]} assigned to block {b} with edges {(e1, e2)}", "blocks")
+    if inst["rows"]:
+        ctx.nontriv("B" + sc.inst_key(inst) + str(sorted(inst["unph"])))
+    ctx.sample({"kind": "Blocks behaviour replayed", "trees": inst["trees"], "muts": inst["muts"],
+                "unphased": inst["unph"], "blocks": decl}, limit=6)
+
+
+def build_edge_rows(ts):
+    from .. import build
+    return build.edge_rows(ts)
+
+
 def run(ctx):
     harness.setup_repo_env(ctx.work)
     q = ctx.quick
@@ -84,8 +142,34 @@ def run(ctx):
     for inst in insts:
         replay_one(ctx, inst)
         ctx.traces += 1
+    # singleton blocks (phasing._block_singletons)
+    musts = ["BlocksExact", "NoPhantomBlock", "MutBlockExact"]
+    cfg = ctx.write_cfg("blocks_j1.cfg", constants=blocks_consts(2, 2, 2 if q else 3, 1 if q else 2, 1, "any"),
+                        invariants=musts)
+    ctx.tlc("Blocks", cfg, workers=8, required_actions=("Gen", "Choose", "Step", "Finish"))
+    if q:
+        cfg = ctx.write_cfg("blocks_j1p.cfg", constants=blocks_consts(2, 2, 3, 1, 1, "pairs"), invariants=musts)
+        ctx.tlc("Blocks", cfg, workers=8)
+    cfg = ctx.write_cfg("blocks_j1b.cfg", constants=blocks_consts(4, 2, 2, 1, 2, "completeunary"), invariants=musts)
+    ctx.tlc("Blocks", cfg, workers=8)
+    cfg = ctx.write_cfg("blocks_j2.cfg", constants=blocks_consts(2, 2, 3 if not q else 2, 1, 1, "any", emit=True),
+                        invariants=["EmitInv"])
+    binsts = ctx.tlc("Blocks", cfg, workers=4, coverage=False).rec("inst")
+    cfg = ctx.write_cfg("blocks_j2b.cfg", constants=blocks_consts(4, 2, 2, 2, 2, "completeunary", emit=True),
+                        invariants=["EmitInv"])
+    binsts += ctx.tlc("Blocks", cfg, workers=8, coverage=False, simulate={"num": 40 if q else 400}, depth=30).rec("inst")
+    capb = 2500 if q else 40000
+    if len(binsts) > capb:
+        binsts = ctx.rng.sample(binsts, capb)
+        ctx.exhaustive = False
+    for inst in binsts:
+        replay_blocks(ctx, inst)
+        ctx.traces += 1
 
 
 def replay(ctx, body):
     harness.setup_repo_env(ctx.work)
-    replay_one(ctx, body["instance"])
+    if body.get("subcheck") == "blocks":
+        replay_blocks(ctx, body["instance"])
+    else:
+        replay_one(ctx, body["instance"])
